@@ -849,6 +849,36 @@ impl Ready<Join> for JoinBuilder<WithInput, WithInput> {
             .clone()
             .unwrap_or(namer::name_from_content(JOIN, &self));
         let operator = self.operator.unwrap_or(JoinOperator::Cross);
+        // The ON clause can only refer to columns of the two inputs (_LEFT_.column, _RIGHT_.column or an unambiguous suffix)
+        if let JoinOperator::Inner(expr)
+        | JoinOperator::LeftOuter(expr)
+        | JoinOperator::RightOuter(expr)
+        | JoinOperator::FullOuter(expr) = &operator
+        {
+            let inputs: Hierarchy<()> = self
+                .left
+                .0
+                .schema()
+                .iter()
+                .map(|f| (vec![Join::left_name().to_string(), f.name().to_string()], ()))
+                .chain(
+                    self.right
+                        .0
+                        .schema()
+                        .iter()
+                        .map(|f| (vec![Join::right_name().to_string(), f.name().to_string()], ())),
+                )
+                .collect();
+            if let Some(column) = expr
+                .columns()
+                .into_iter()
+                .find(|column| inputs.get(column).is_none())
+            {
+                return Err(Error::invalid_relation(format!(
+                    "{expr}: column {column} is unknown or ambiguous in the inputs of the join"
+                )));
+            }
+        }
         let left_names = self
             .left
             .0
